@@ -211,7 +211,7 @@ func (m msgServer) RecvPacket(
 	// Perform TAO verification
 	if err := m.k.PacketKeeper.RecvPacket(ctx, msg.Packet, msg.ProofCommitment, msg.ProofHeight); err != nil {
 		switch err {
-		case sdkerrors.ErrUnauthorized:
+		case sdkerrors.ErrUnauthorized, clienttypes.ErrClientNotFound:
 			if err2 := m.k.PacketKeeper.WriteAcknowledgement(ctx, msg.Packet, packettypes.NewErrorAcknowledgement(err.Error()).GetBytes()); err2 != nil {
 				return nil, err2
 			}
